@@ -146,21 +146,21 @@ package capacity
 //@ func (*SpaceKeeper).PlotMultiWS
 //@   assert-at call getWsByFlags selects-by-the-flags-it-was-given: arg0 == sk.workSpaceList && arg1 == old(flags)
 //@   assert-at call PlotWS applies-the-action-to-each-selected-space: arg1 == lastresult("String")
-//@   assert-at call String id-of-the-selected-space: arg0 == lastresult("getWsByFlags")[#rangeindex + 1].id
+//@   assert-at call String id-of-the-selected-space: arg0 == lastresult("getWsByFlags")[#iter].id
 //@ func (*SpaceKeeper).MineMultiWS
 //@   assert-at call getWsByFlags selects-by-the-flags-it-was-given: arg0 == sk.workSpaceList && arg1 == old(flags)
 //@   assert-at call MineWS applies-the-action-to-each-selected-space: arg1 == lastresult("String")
-//@   assert-at call String id-of-the-selected-space: arg0 == lastresult("getWsByFlags")[#rangeindex + 1].id
+//@   assert-at call String id-of-the-selected-space: arg0 == lastresult("getWsByFlags")[#iter].id
 //@ func (*SpaceKeeper).StopMultiWS
 //@   assert-at call getWsByFlags selects-by-the-flags-it-was-given: arg0 == sk.workSpaceList && arg1 == old(flags)
 //@   assert-at call StopWS applies-the-action-to-each-selected-space: arg1 == lastresult("String")
-//@   assert-at call String id-of-the-selected-space: arg0 == lastresult("getWsByFlags")[#rangeindex + 1].id
+//@   assert-at call String id-of-the-selected-space: arg0 == lastresult("getWsByFlags")[#iter].id
 //@ func (*SpaceKeeper).RemoveMultiWS
 //@   assert-at call getWsByFlags selects-by-the-flags-it-was-given: arg0 == sk.workSpaceList && arg1 == old(flags)
 //@   assert-at call RemoveWS applies-the-action-to-each-selected-space: arg1 == lastresult("String")
-//@   assert-at call String id-of-the-selected-space: arg0 == lastresult("getWsByFlags")[#rangeindex + 1].id
+//@   assert-at call String id-of-the-selected-space: arg0 == lastresult("getWsByFlags")[#iter].id
 //@ func (*SpaceKeeper).DeleteMultiWS
 //@   attr effect:fs.remove
 //@   assert-at call getWsByFlags selects-by-the-flags-it-was-given: arg0 == sk.workSpaceList && arg1 == old(flags)
 //@   assert-at call DeleteWS applies-the-action-to-each-selected-space: arg1 == lastresult("String")
-//@   assert-at call String id-of-the-selected-space: arg0 == lastresult("getWsByFlags")[#rangeindex + 1].id
+//@   assert-at call String id-of-the-selected-space: arg0 == lastresult("getWsByFlags")[#iter].id
